@@ -28,6 +28,29 @@ CLAIMED = {
              'chain clause is decided per program by the proved-sound checker; the full C02_sound is not yet a single theorem; '
              'lexing and LALR parsing are shared with the implementation through the AST dump; F8, F16 fixed; F17, F18 known.',
         technique='Coq-certified per-program checker (soundness theorem) + layout model correspondence + partial universal theorems'),
+    'C04': dict(
+        category='proof',
+        text='Theorems by kernel computation on images regenerated from the current stl and assembler on every run: for each '
+             'documented hex macro (memory, logic, arithmetic incl. mul/div/idiv, shifts, comparisons) and each instance '
+             '(n, w) a generated theorem `forall operands in the stated finite domain, block_correct` (the frame equation: '
+             'final memory = image patched with the documented result on EVERY word modulo a declared scratch mask, exit '
+             'marker, halting) proved by vm_compute of an exhaustive forallb + a Qed lifting lemma (check_block_sound, '
+             'blocks_by_enumeration); pair-composition harnesses; sampled larger sizes run on the real engines.',
+        design_ref='DESIGN.md section 4, C04/C05/C08/C09',
+        note='Bounds are in every theorem statement: exhaustive operands for the instance sizes (hex n <= 2), w in {32, 64}; '
+             'larger n and arbitrary macro sequences are sampled on the real engines (tests, not proofs). The image is the '
+             'artefact the user runs; the assembler that produced it and the engines are tied by C01-C03/C12. F21 fixed.',
+        technique='Coq theorems by computation (exhaustive finite domains, stated) on regenerated images + frame lemma'),
+    'C05': dict(
+        category='proof',
+        text='Same machinery as C04 for the bit namespace (memory, logic with exact/zero variants, conditional jumps, shifts '
+             'and rotates, inc/dec/neg/add/sub/mul/mul10/div/idiv and loop variants, div10): generated per-instance theorems '
+             '`forall operands in the stated finite domain, block_correct` by exhaustive vm_compute + Qed lifting lemmas, '
+             'w in {16, 32, 64}.',
+        design_ref='DESIGN.md section 4, C04/C05/C08/C09',
+        note='Exhaustive for the instance sizes stated in each theorem (bit n <= 8 where op counts allow); larger n and arbitrary '
+             'sequences sampled on the real engines. F22 (idiv by zero), F23 (mul10 n=1) fixed.',
+        technique='Coq theorems by computation (exhaustive finite domains, stated) on regenerated images + frame lemma'),
     'C06': dict(
         category='proof',
         text='Qed-closed universal theorems (Properties/C06.v) about the Gallina model of fjm_writer/fjm_reader: round trip for '
